@@ -105,6 +105,34 @@ func wrapAttacks(c *vf.Ctx, x *chain.Explorer, w *chain.World, path []string) {
 			}
 		}
 	}
+	// an output created earlier in the block, spent under a LARGER claimed value (from the ephemeral-output height on the
+	// claimed value must be the created one; below it the legacy rule does not check it - not asserted there)
+	if v2ok && h >= w.Net.HardforkV2.EphemeralOutputHeight {
+		if p, ok := bc.PickSC(func(cl int) bool { return cl == chain.AddrV2 || cl == chain.AddrV1 }, types.Siacoins(5)); ok {
+			u1 := w.UseV2SC(p, 5)
+			for i, extra := range []types.Currency{one, types.Siacoins(1000000), top} {
+				eph := u1.V2.EphemeralSiacoinOutput(0)
+				var over bool
+				if eph.SiacoinOutput.Value, over = eph.SiacoinOutput.Value.AddWithOverflow(extra); over {
+					continue
+				}
+				t2 := types.V2Transaction{SiacoinInputs: []types.V2SiacoinInput{{Parent: eph}}, SiacoinOutputs: []types.SiacoinOutput{{Value: eph.SiacoinOutput.Value, Address: k.Addr(chain.AddrV2b)}}}
+				w.SignV2(&t2)
+				b, bs := w.BuildBlock(nil, []types.V2Transaction{*u1.V2, t2}, chain.BlockOpts{})
+				err, pv := x.TryBlock(w, b, bs)
+				name := fmt.Sprintf("in-block output spent under an inflated value, variant %d", i)
+				c.Distinct(w.Spec.Name, "wrap", name)
+				switch {
+				case pv != nil:
+					x.Violate("wraparound|panic|"+name, fmt.Sprintf("ValidateBlock panicked (%s) at height %d: %v", name, h, pv), path)
+				case err == nil:
+					x.Violate("inflated-in-block-parent|accepted", fmt.Sprintf("a v2 transaction spent an output created earlier in the block under a value larger than the one created (%s) and the block was ACCEPTED at height %d: value created from nothing", name, h), append(append([]string(nil), path...), "attack:wrap:"+name))
+				default:
+					c.Count("wraparound_rejected", 1)
+				}
+			}
+		}
+	}
 	// contracts: the value locked in a new contract is a sum as well
 	if v2ok {
 		bc2 := w.NewBlockCtx()
